@@ -67,6 +67,7 @@ type fileState struct {
 	versions [][]byte // every content the file ever had in this run
 	until    []int64  // global event stamp at which versions[i] stopped being the file's content (0: still is)
 	present  bool
+	goneAt   int64 // original directories: global event stamp at which it stopped being a directory in this run (0: still is, or is again)
 }
 
 type disk struct {
@@ -76,7 +77,6 @@ type disk struct {
 	dirty     bool
 	mapfs     fstest.MapFS
 	base      time.Time
-	goneDir   map[string]int64 // original directories: global event stamp at which each stopped being a directory in this run
 }
 
 var theDisk *disk
@@ -125,7 +125,9 @@ func Cleanup() {
 
 // reset restores the pristine tree.
 func (d *disk) reset() {
-	d.goneDir = map[string]int64{}
+	for _, f := range d.files {
+		f.goneAt = 0
+	}
 	if !d.dirty {
 		for _, f := range d.files {
 			f.versions = f.versions[:1]
@@ -201,7 +203,9 @@ func (d *disk) swapToDir(rel string) {
 	for a := rel; strings.Contains(a, "/"); {
 		a = a[:strings.LastIndex(a, "/")]
 		if fi, err := os.Stat(filepath.Join(d.pub, filepath.FromSlash(a))); err == nil && fi.IsDir() {
-			delete(d.goneDir, a)
+			if f := d.files[a]; f != nil {
+				f.goneAt = 0
+			}
 		}
 	}
 	d.dirty = true
@@ -240,8 +244,8 @@ func (d *disk) endVersions(rel string) {
 		if name != rel && !strings.HasPrefix(name, rel+"/") {
 			continue
 		}
-		if f.spec.isDir && d.goneDir != nil && d.goneDir[name] == 0 {
-			d.goneDir[name] = now // removed, or replaced by a regular file (nothing in a run re-creates a directory)
+		if f.spec.isDir && f.goneAt == 0 {
+			f.goneAt = now // removed, or replaced by a regular file
 		}
 		for i := range f.until {
 			if f.until[i] == 0 {
